@@ -491,10 +491,15 @@ func checkLexSpec(c *core.Ctx, tokName map[string]string) {
 				continue
 			}
 			bo, ok := iff.Cond.(*ssa.BinOp)
-			if !ok || bo.Op != token.EQL {
+			if !ok || (bo.Op != token.EQL && bo.Op != token.NEQ) {
 				continue
 			}
-			if ks, isStr := bo.Y.(*ssa.Const); isStr && ks.Value != nil && ks.Value.Kind() == constant.String && core.EdgeDominates(id, 0, b) {
+			// the edge on which the read equals the constant: true edge of `==`, false edge of `!=`
+			eq := 0
+			if bo.Op == token.NEQ {
+				eq = 1
+			}
+			if ks, isStr := bo.Y.(*ssa.Const); isStr && ks.Value != nil && ks.Value.Kind() == constant.String && core.EdgeDominates(id, eq, b) {
 				// a keyword-like prefix read as an identifier (`rol`, `ror`)
 				rs = append([]rune(constant.StringVal(ks.Value)), rs...)
 				continue
@@ -506,7 +511,7 @@ func checkLexSpec(c *core.Ctx, tokName map[string]string) {
 			if !ok {
 				continue
 			}
-			if core.EdgeDominates(id, 0, b) {
+			if core.EdgeDominates(id, eq, b) {
 				rs = append([]rune{rune(k)}, rs...)
 			}
 		}
@@ -755,8 +760,8 @@ func checkEscapeReach(c *core.Ctx) {
 					if !ok {
 						continue
 					}
-					bo, ok := iff.Cond.(*ssa.BinOp)
-					if !ok || bo.Op != token.EQL {
+					bo, eq, ok := core.EqCond(iff.Cond)
+					if !ok {
 						continue
 					}
 					k, isK := core.ConstIntValue(bo.Y)
@@ -766,7 +771,7 @@ func checkEscapeReach(c *core.Ctx) {
 							fromOffset = true
 						}
 					}
-					if isK && k == 2 && fromOffset && core.EdgeDominates(blk, 0, b) {
+					if isK && k == 2 && fromOffset && core.EdgeDominates(blk, eq, b) {
 						guarded = true
 					}
 				}
